@@ -1,4 +1,5 @@
 import HdVerif.Proofs.SegGeom
+import HdVerif.Proofs.SegGeomTie
 /-! # C03  Derived images sit where the user placed them in space
 
 Property theorems only (helper lemmas: `Proofs/SegGeom.lean`; T3 lemmas of C04: `Proofs/TilingStd.lean`).
@@ -355,13 +356,15 @@ theorem image_stack_reads_back (st : Stack) (hst : StackOK st) (base : V3) (sp :
     rw [this]
 
 /-- **"Up to decimal-string precision": the placement survives rounding of the recorded values.**  Recorded
-positions `P e` within `sp/1000` of the ideal `base + (e·sp)·n` (error depending on the plane only), recorded
-SpacingBetweenSlices `sp'` within 0.1 % of `sp`, at most 101 slots: the frames still go to the slots `e − min e`,
+positions `P e` within `sp/100000` of the ideal `base + (e·sp)·n` (error depending on the plane only), recorded
+SpacingBetweenSlices `sp'` within 0.001 % of `sp`, at most 501 slots (the library accepts a plane within 1 % of a
+spacing of a whole multiple of the recorded spacing, /repo 95f2029, so the admissible error shrinks with the number
+of slots: `(slots + 1) · relative error ≤ 1 %`): the frames still go to the slots `e − min e`,
 the volume still spans `max e − min e + 1` slots, and the affine is the one the recorded attributes describe
 (translation = recorded position of the first plane, columns = recorded spacings × recorded directions). -/
 theorem placement_robust_to_rounding (k : Kind) (st : Stack) (hst : StackOK st) (base : V3) (sp : Rat) (hsp : 0 < sp)
-    (P : Int → V3) (hP : Pert (normal st.rowCos st.colCos) base sp P) (sp' : Rat) (h1 : sp * (999 / 1000) ≤ sp')
-    (h2 : sp' ≤ sp * (1001 / 1000)) (es : List Int) (hes : es ≠ []) (hspan : ∀ e ∈ es, ∀ e' ∈ es, e' - e ≤ 100)
+    (P : Int → V3) (hP : PertF (normal st.rowCos st.colCos) base sp P) (sp' : Rat) (h1 : sp * (99999 / 100000) ≤ sp')
+    (h2 : sp' ≤ sp * (100001 / 100000)) (es : List Int) (hes : es ≠ []) (hspan : ∀ e ∈ es, ∀ e' ∈ es, e' - e ≤ 500)
     (hpos : st.pos = es.map P) (hhint : st.hint = some sp') (hu : framesUnique k st = true) (rows cols : Int)
     (hr : 1 ≤ rows) (hc : 1 ≤ cols) :
     ∃ emin ∈ es, ∃ emax ∈ es, (∀ e ∈ es, emin ≤ e ∧ e ≤ emax) ∧ ∃ out,
@@ -773,6 +776,44 @@ theorem segmentation_records_the_placement :
     ⟨by decide, by decide, by decide, by decide, by decide, by decide, by decide, by decide, by decide⟩,
     ⟨by decide, by decide, by decide, by decide⟩⟩
 
+/-! ## 7. Bridges: hand-written parts of the model use exactly the regenerated expressions of the current source
+
+`Generated/TC03getitem.lean`, `TC03volpos.lean`, `TC03rot.lean` are rebuilt from /repo on every run; these statements
+fail to build when the source's bounds tests, size/origin arithmetic, tolerances, hint handling, multiples, mean gap,
+perpendicularity test, or the cosine/spacing selection of `create_rotation_matrix` stop being what the model uses.
+Hand-written remainders are named in `Proofs/SegGeomTie.lean` (`sliceIndices1`, `allCloseElem`, `pickCos`, `pickSp`). -/
+
+/-- `Volume.__getitem__` / `VolumeGeometry.__getitem__`, one axis: the model = regenerated `_check_slice` bounds test,
+then the regenerated emptiness test / size / new-origin index on `slice.indices(n)` -/
+theorem getitem_axis_uses_the_source (start stop : Option Int) (n : Int) :
+    getitemAxis start stop n = SegGeomTie.getitemAxisGen start stop n :=
+  SegGeomTie.getitemAxis_eq_gen start stop n
+
+/-- `get_volume_positions`: tolerances, hint normalisation, single-position spacing, the gaps-allowed branch (multiples
+from the smallest distance, 1 %-of-a-spacing regularity test, zero-gap refusal), the strict branch's mean gap and
+the perpendicularity test of the model are the regenerated ones -/
+theorem volume_positions_use_the_source :
+    (tolSpacing = vpTolSpacing ∧ tolEq = vpTolEq ∧ tolPerp = vpTolPerp) ∧
+    (∀ h : Option Rat, normHint h = (match h, vpNormHint h with
+      | none, _ => .ok none
+      | some _, .ok v => .ok (some v)
+      | some _, .error e => .error e)) ∧
+    (∀ h : Option Rat, vpSingleSpacing h = .ok (defaultSpacing h)) ∧
+    (∀ ds du dmin dmax hint perp,
+      regularMissing ds du dmin hint perp = SegGeomTie.regularMissingGen ds du dmin dmax hint perp) ∧
+    (∀ ds du dmin dmax hint perp,
+      regularStrict ds du dmin dmax hint perp = SegGeomTie.regularStrictGen ds du dmin dmax hint perp) ∧
+    (∀ (n span : V3) (r : Rat), 0 < r → r * r = dot span span → vpIsPerp (dot n span / r) = .ok (isPerp n span)) :=
+  ⟨SegGeomTie.tolerances_eq_gen, SegGeomTie.normHint_eq_gen, SegGeomTie.defaultSpacing_eq_gen,
+   SegGeomTie.regularMissing_eq_gen, SegGeomTie.regularStrict_eq_gen, SegGeomTie.isPerp_eq_gen⟩
+
+/-- `VolumeGeometry.from_attributes`: the affine of the model = the regenerated selections of
+`create_rotation_matrix` (cosines, signs, spacings per index direction, cross-product order, column of the normal,
+refused spacings) for `VOLUME_INDEX_CONVENTION`, `slices_first=True`, right-handed -/
+theorem from_attributes_uses_the_source (origin rowCos colCos : V3) (psRow psCol sbs : Rat) :
+    fromAttributes origin rowCos colCos psRow psCol sbs = SegGeomTie.fromAttributesGen origin rowCos colCos psRow psCol sbs :=
+  SegGeomTie.fromAttributes_eq_gen origin rowCos colCos psRow psCol sbs
+
 /-! ## Non-vacuity: the hypotheses are satisfiable by concrete, non-trivial inputs -/
 
 /-- a left-handed, anisotropic, axis-swapped geometry (directions: d0 = −z, d1 = x, d2 = y) -/
@@ -802,8 +843,8 @@ example : ([2, 0, 1, 3] : List Int).Nodup ∧ (∀ z : Int, 0 ≤ z → z ≤ 3 
 
 /-- `placement_robust_to_rounding`: a non-zero rounding error satisfying the hypothesis -/
 example (n base : V3) (sp : Rat) (hsp : 0 < sp) :
-    Pert n base sp (fun e => add (linePos n base sp e) ⟨sp / 2000, -(sp / 2000), 0⟩) := by
-  refine ⟨fun e => ⟨⟨sp / 2000, -(sp / 2000), 0⟩, rfl, ?_⟩⟩
+    PertF n base sp (fun e => add (linePos n base sp e) ⟨sp / 200000, -(sp / 200000), 0⟩) := by
+  refine ⟨fun e => ⟨⟨sp / 200000, -(sp / 200000), 0⟩, rfl, ?_⟩⟩
   simp only [dot]
   nlinarith [mul_pos hsp hsp]
 
@@ -827,5 +868,18 @@ example : sliceSpec (some (-6)) none 5 true = none := by decide
 example : pyramidSpacing (1 / 2) (1 / 4) 3 1 16 24 3 1 8 12 = .ok (1, 1 / 2) := by
   unfold pyramidSpacing; norm_num
 example : maskRows 3 1 8 ≠ 0 ∧ maskCols 3 8 12 ≠ 0 := by decide
+
+/-- the bridges are about non-trivial values: an accepted and two refused requests through the regenerated side, an
+anisotropic oblique-free geometry whose three columns differ, a perpendicular span of rational length -/
+example : SegGeomTie.getitemAxisGen (some (-3)) (some 5) 5 = .ok (2, 3) ∧
+    SegGeomTie.getitemAxisGen (some 1) (some 6) 5 = .error .value ∧
+    SegGeomTie.getitemAxisGen (some 3) (some 2) 5 = .error .index := by decide
+example : SegGeomTie.fromAttributesGen ⟨1, 2, 3⟩ ⟨1, 0, 0⟩ ⟨0, 1, 0⟩ (1 / 2) (1 / 4) 3 =
+    .ok ⟨⟨0, 0, -3⟩, ⟨0, 1 / 2, 0⟩, ⟨1 / 4, 0, 0⟩, ⟨1, 2, 3⟩⟩ := by
+  rw [← SegGeomTie.fromAttributes_eq_gen]
+  norm_num [fromAttributes, orthogonalCols, normal, cross, smul, dot, rabs, tolEq]
+example : vpIsPerp (dot ⟨0, 0, 1⟩ ⟨0, 0, 5⟩ / 5) = .ok true := by
+  rw [SegGeomTie.isPerp_eq_gen _ _ 5 (by norm_num) (by norm_num [dot])]
+  norm_num [isPerp, dot, tolPerp]
 
 end HdVerif.C03
